@@ -1,5 +1,6 @@
 SPECIFICATION Spec
 CONSTANTS
+  Lazies = {FALSE, TRUE}
   NumRuns = 3
   NumGens = 1
   ObserverCancels = TRUE
